@@ -555,7 +555,12 @@ func (e *Evaluator) evalDotExp(node *ast.DotExp, env *object.Env) object.Object 
 
 	key := node.Key.(*ast.Identifier)
 
-	return e.evalObjectIndexExp(left.(*object.Obj), key.Value, node)
+	obj, ok := left.(*object.Obj)
+	if !ok {
+		return e.newError(node, fail.ErrDotOperatorNotSupported, left.Type())
+	}
+
+	return e.evalObjectIndexExp(obj, key.Value, node)
 }
 
 func (e *Evaluator) evalString(node *ast.StringLiteral, _ *object.Env) object.Object {
